@@ -39,7 +39,7 @@ def gen_case(rng):
     n_s = 4 if fkind == 'GMIX' else rng.choice([2, 3])
     n_out = rng.choice([1, 1, 2])
     n_par = rng.choice([2, 3])
-    n_times = rng.choice([1, 2, 3])
+    n_times = rng.choice([1, 2, 3, 3, 4])
     times = rng.sample(range(0, 9), n_times)                 # unsorted, unique
     subs, left = [], n_par
     while left > 0:
@@ -79,7 +79,9 @@ def gen_case(rng):
             for i in range(1, n_meas):
                 if rng.random() < 0.25:
                     data[i][r][j] = float('nan')
-    return {'fkind': fkind, 'n_s': n_s, 'n_out': n_out, 'n_par': n_par, 'times': times, 'subs': subs, 'chis': chis,
+    cuts = sorted(rng.sample(range(1, n_times), rng.choice([1, min(2, n_times - 1)]))) if (
+        n_times >= 2 and rng.random() < 0.4) else []
+    return {'cuts': cuts, 'fkind': fkind, 'n_s': n_s, 'n_out': n_out, 'n_par': n_par, 'times': times, 'subs': subs, 'chis': chis,
             'top': top, 'bottom': bottom, 'free_sigma': free_sigma, 'sigma': sigma, 'eps': eps, 'data': data,
             'log_scale': rng.random() < 0.4, 'fixed': rng.random() < 0.15}
 
@@ -100,7 +102,14 @@ def build(case, second=False):
         pop = chi.ReducedPopulationModel(pop)
         pop.fix_parameters({names[0]: case['top'][0]})
         fixed = 0
-    filt = c12.make_filter(case['fkind'], np.array(case['data'], dtype=float))
+    data = np.array(case['data'], dtype=float)
+    if case.get('cuts'):
+        # the same kind of filter composed from filters over consecutive blocks of (unsorted) measurement times
+        bounds = [0] + list(case['cuts']) + [data.shape[2]]
+        filt = chi.ComposedPopulationFilter([c12.make_filter(case['fkind'], data[:, :, a:b])
+                                             for a, b in zip(bounds, bounds[1:])])
+    else:
+        filt = c12.make_filter(case['fkind'], data)
     n_top = len(case['top']) - (1 if fixed is not None else 0) + (case['n_out'] if case['free_sigma'] else 0)
     prior = pints.ComposedLogPrior(*[pints.GaussianLogPrior(0.75 + 0.125 * k, 4.0) for k in range(n_top)])
     cov = None if case['chis'] is None else np.array(case['chis'], dtype=float)
@@ -315,7 +324,10 @@ def oracle(case):
     data = np.array(case['data'], dtype=float)[:, :, order]
     fcase = {'kind': case['fkind'], 'obs': data.tolist(), 'sim': y.tolist(), 'order': list(range(len(order))),
              'cuts': [], 'composed': False}
-    filt_ref = c12.ref_score(fcase)
+    try:
+        filt_ref = c12.ref_score(fcase)
+    except ValueError:           # the reference density underflowed
+        filt_ref = None
     from scipy import stats
     X, theta = popspec.split_vector(S, case['n_s'], sub_case['v'])
     pop = 0.0
@@ -338,8 +350,8 @@ def oracle(case):
                 else:
                     pop += stats.truncnorm.logpdf(x, a=-mu / sgm, b=np.inf, loc=mu, scale=sgm)
     noise = -case['n_s'] * case['n_out'] * math.log(2 * math.pi) / 2 - sum(e * e for e in case['eps']) / 2
-    ref = res['prior'] + pop + noise + filt_ref
-    if core.relerr(res['value'], ref) > 1e-7:
+    ref = res['prior'] + pop + noise + (filt_ref or 0.0)
+    if filt_ref is not None and core.relerr(res['value'], ref) > 1e-7:
         return 'log-posterior %r; prior %r + population %r + noise %r + filter %r = %r' % (
             res['value'], res['prior'], pop, noise, filt_ref, ref)
     post, prior, S, fixed = build(case)
@@ -356,7 +368,17 @@ def key_of(case, what):
 def run(ck):
     cases, payload = [], {}
     for i in range(ck.n(40, 500)):
-        case = gen_case(ck.rng)
+        for _attempt in range(20):
+            case = gen_case(ck.rng)
+            # kernel-density filters with two or three tightly clustered simulated individuals put the data hundreds
+            # of bandwidths away; such cases (|log-posterior| in the thousands) only test floating-point underflow of
+            # the reference and are regenerated
+            try:
+                if abs(float(build(case)[0](np.delete(np.array(vector(case)), build(case)[3])
+                                            if build(case)[3] is not None else np.array(vector(case))))) < 600:
+                    break
+            except Exception:
+                break
         label = 'q%d' % i
         S = [Sub(**d) for d in case['subs']]
         try:
@@ -365,7 +387,7 @@ def run(ck):
         except Exception as e:
             ck.violation(key_of(case, ''), 'chi raised %s: %s' % (type(e).__name__, e), case)
             continue
-        ck.count('filter=%s' % case['fkind'])
+        ck.count('filter=%s%s' % (case['fkind'], ' composed' if case.get('cuts') else ''))
         ck.count('sigma %s' % ('free' if case['free_sigma'] else 'fixed'))
         ck.count('noise %s' % ('log-scale' if case['log_scale'] else 'additive'))
         for s in S:
